@@ -3,6 +3,7 @@ CONSTANTS HC = 5  Mins = {2, 3}  Families = {"avg"}
 INIT Init
 NEXT Next
 INVARIANT AtMostTwoRows
+INVARIANT AverageIsMeanOfKeptRows
 INVARIANT StrictlyIncreasing
 INVARIANT OnlyCandidates
 INVARIANT NoThinCells
